@@ -16,7 +16,7 @@ From QV.lib Require Import Prelude.
 From QV.model Require Import C19_Model.
 From QV.model Require Import C19_Model2.
 From QV.proof Require Import C19_Proofs_Keys C19_Proofs_Set C19_Proofs_Update C19_Proofs_Ctx
-  C19_Proofs_Hist C19_Proofs_Last C19_Proofs_Nested C19_Proofs_With C19_Proofs_Ext.
+  C19_Proofs_Hist C19_Proofs_Last C19_Proofs_Nested C19_Proofs_With C19_Proofs_With2 C19_Proofs_Ext.
 From Coq Require Import String Ascii.
 
 (* ------------------------------------------------------------------ get after set *)
@@ -437,6 +437,35 @@ Theorem C19_exit_keeps_other_keys :
 Proof. exact restore_all_keeps. Qed.
 Print Assumptions C19_exit_keeps_other_keys.
 
+(* ... and with-blocks whose ARGUMENTS write the key itself (any number of times, either spelling;
+   other items and the body write other keys): the key comes back when the block is left, provided
+   __exit__ does not raise (if it raises, the remaining undo steps are skipped by the code and the
+   block's value can stay).  `quiet key' post s`: every op of post either writes other keys only
+   (C19_get_last_writer_ops) or is such a shadowing block that enters and exits cleanly in the
+   state it is run in. *)
+Theorem C19_get_last_writer_shadow :
+  forall validate s1 key v v' d2 r key' post,
+    (good (Node (conf s1)) /\ Forall (fun d => good (Node d)) (dflts s1)) ->
+    key_ok key -> good v -> key_ok key' -> nodev (path_of key') ->
+    same_path (path_of key) (path_of key') ->
+    check_key_val validate key v = inr v' ->
+    set_item validate key v (conf s1) = inr (d2, r) ->
+    quiet validate key' post {| conf := d2; dflts := dflts s1 |} ->
+    C19_Model.get key' (conf (run validate post {| conf := d2; dflts := dflts s1 |})) = inr v'.
+Proof. exact get_last_writer_shadow. Qed.
+Print Assumptions C19_get_last_writer_shadow.
+
+(* one such block: "using set as a context manager restores the previous values on exit" for a
+   body that is not empty *)
+Theorem C19_with_block_restores_key :
+  forall validate o s key' x,
+    (good (Node (conf s)) /\ Forall (fun d => good (Node d)) (dflts s)) ->
+    shadows_ok validate key' o s -> key_ok key' -> nodev (path_of key') ->
+    C19_Model.get key' (conf s) = inr x ->
+    C19_Model.get key' (conf (fst (step validate o s))) = inr x.
+Proof. exact shadow_preserves_get. Qed.
+Print Assumptions C19_with_block_restores_key.
+
 (* ------------------------------------------------------------------ siblings without the nodev side condition *)
 (* C19_update_preserves_siblings for paths that may contain "device", given that validate_device
    rejects mappings (it raises TypeError for a dict; true of validate_nogpu) *)
@@ -700,4 +729,31 @@ Proof.
   split; [|vm_compute; discriminate].
   repeat (apply Forall_cons); try apply Forall_nil; cbn [no_upd no_upd_s]; try exact I.
   all: repeat (apply Forall_cons); try apply Forall_nil; try exact I.
+Qed.
+
+(* a block that shadows the key twice (mapping form under one spelling, keyword form under the
+   other) next to a fresh nested key; the body changes a sibling and registers a default; on exit
+   the key reads the old value again *)
+Example C19_nonvacuous_shadow :
+  let o := With (Some (Node [("viz.real_space_units", Leaf (JStr "um")); ("fresh.k", Leaf (JInt 1))]))
+                [("viz__real-space-units", Leaf (JStr "pm"))]
+                [SSet (Some (Node [("viz.cmap", Leaf (JStr "hot"))])) []; SUpd [("mkl", Node [("threads", Leaf (JInt 8))])]] in
+  shadows_ok validate_nogpu "viz.real-space-units" o ex3_s /\
+  C19_Model.get "viz.real-space-units" (conf ex3_s) = inr (Leaf (JStr "A")) /\
+  C19_Model.get "viz.real-space-units" (conf (fst (step validate_nogpu o ex3_s))) = inr (Leaf (JStr "A")) /\
+  C19_Model.get "viz.cmap" (conf (fst (step validate_nogpu o ex3_s))) = inr (Leaf (JStr "hot")).
+Proof.
+  split; [|repeat split; vm_compute; reflexivity].
+  cbn [shadows_ok arg_ok set_args kw_items map app]. split; [repeat (constructor; [split; [pp_tac | good_tac]|]); constructor|].
+  split; [repeat (constructor; [split; [pp_tac | good_tac]|]); constructor|]. split.
+  - intros key v [E|[E|[E|[]]]]; inversion E; subst; vm_compute.
+    + right. reflexivity.
+    + left. left. discriminate.
+    + right. reflexivity.
+  - split.
+    + repeat (apply Forall_cons); try apply Forall_nil; cbn [no_write arg_ok set_args kw_items map app].
+      * split; [repeat (constructor; [split; [pp_tac | good_tac]|]); constructor|]. split; [constructor|].
+        intros key v [E|[]]. inversion E; subst. vm_compute. right. split; [reflexivity|]. left. discriminate.
+      * split; [good_tac|]. intros w [<-|[]]. vm_compute. left. discriminate.
+    + eexists. eexists. split; vm_compute; reflexivity.
 Qed.
